@@ -98,6 +98,9 @@ def gen_pool(rng, names, n_rows, path_kind):
     center = rng.randint(-250000, 250000)
     if rng.random() < 0.5:
         center = center // spacing * spacing
+    zero_centre = rng.random() < 0.12  # pools around tick 0 (stable pairs of equal decimals): closes exactly on tick 0
+    if zero_centre:
+        center = rng.choice([0, 0, spacing, -spacing, rng.randint(-5 * spacing, 5 * spacing)])
     base = center // spacing * spacing
     ranges = []
     for _ in range(rng.choice([1, 1, 1, 1, 2, 2, 3, 4])):
@@ -115,6 +118,10 @@ def gen_pool(rng, names, n_rows, path_kind):
         if r not in ranges:
             ranges.append(r)
     anchors = sorted({b for r in ranges for b in r})
+    if zero_centre:
+        anchors = sorted(set(anchors) | {0})
+        anchors += [0] * len(anchors)  # land on tick 0 about as often as on all bounds together
+        path_kind = rng.choice(["anchors", "anchors", path_kind])
     wmin = min(u - l for l, u in ranges)
     step = max(3, rng.choice([wmin // 4, wmin // 2, wmin, spacing * 2, spacing * 5]))
     first_amounts = (amount(rng), amount(rng))  # (base, quote) of the first add
